@@ -105,7 +105,10 @@ type VC struct {
 	implUsed map[string]bool
 	epochN  int
 	regions map[string]string
+	curBind map[string]ssa.Value // bindings of the closure being called (closurefv.go)
 	noFacts int // >0 while evaluating under a specification quantifier: emit no ground facts
+	hdr         map[*ssa.BasicBlock]*headerSnap // effects.go: state at loop headers (for prev())
+	iterChecked map[*Clause]bool                 // effects.go: `loop k ensures` clauses checked at some back edge
 }
 
 type loopInfo struct {
@@ -129,6 +132,9 @@ func (vc *VC) declareFun(name string, args []string, ret string) {
 		return
 	}
 	vc.decl[name] = true
+	if vc.eng.Prelude != nil && vc.eng.Prelude.bySym[name] != nil {
+		return // a specs/*.smt2 file declares (and may axiomatise) this model function; the slicer emits it
+	}
 	vc.emit(fmt.Sprintf("(declare-fun %s (%s) %s)", name, strings.Join(args, " "), ret))
 }
 
